@@ -37,9 +37,32 @@ def build_msg(spec, delta):
         return mido.MetaMessage('text', text=f't{spec[1]}', time=delta)
     if k == 'eot':
         return mido.MetaMessage('end_of_track', time=delta)
+    if k == 'tsig':
+        return mido.MetaMessage('time_signature', numerator=1 + spec[1] % 12, denominator=2 ** (spec[1] % 6), time=delta)
     if k == 'umeta':
         from mido.midifiles.meta import UnknownMetaMessage
         return UnknownMetaMessage(0x60 + spec[1] % 8, (spec[1] % 128,), time=delta)
+    raise ValueError(k)
+
+
+def encode_event(spec, delta):
+    """The same event as build_msg(), as an event for the independent SMF writer (simdisk.write_smf)."""
+    k = spec[0]
+    d = (delta, 0)
+    if k == 'note':
+        return (d, 'midi', 0x90, [spec[1] % 128, 1 + spec[1] // 128 % 127], False)
+    if k == 'cc':
+        return (d, 'midi', 0xB0, [spec[1] % 128, 7], False)
+    if k == 'tempo':
+        return (d, 'meta', 0x51, list(spec[1].to_bytes(3, 'big')), 0)
+    if k == 'text':
+        return (d, 'meta', 0x01, list(f't{spec[1]}'.encode('ascii')), 0)
+    if k == 'eot':
+        return (d, 'meta', 0x2F, [], 0)
+    if k == 'tsig':
+        return (d, 'meta', 0x58, [1 + spec[1] % 12, spec[1] % 6, 24, 8], 0)
+    if k == 'umeta':
+        return (d, 'meta', 0x60 + spec[1] % 8, [spec[1] % 128], 0)
     raise ValueError(k)
 
 
@@ -138,7 +161,9 @@ class Playback(BaseEngine):
                     spec = ['umeta', counter]
                 elif r < tempo_bias + 0.17:
                     spec = ['eot']
-                elif r < tempo_bias + 0.25:
+                elif r < tempo_bias + 0.22:
+                    spec = ['tsig', rng.randrange(1000)]
+                elif r < tempo_bias + 0.29:
                     spec = ['cc', counter]
                 else:
                     spec = ['note', counter]
@@ -184,7 +209,8 @@ class Playback(BaseEngine):
                 'delays': delays, 'abandon_after': pick(rng, (None, None, None, 0, 1, 3)),
                 'meta_messages': rng.random() < 0.4, 'second': second, 'bystander': bystander,
                 'play_mutate': rng.random() < 0.3, 'default_now': rng.random() < 0.25,
-                'frozen': pick(rng, (0, 0, 0, 0, 1, 2, 3))}
+                'frozen': pick(rng, (0, 0, 0, 0, 1, 2, 3)),
+                'loaded': pick(rng, (None, None, None, None, 'plain', 'clip', 'clip'))}
 
     # ------------------------------------------------------------ execution
     def abort_cleanup(self):
@@ -268,6 +294,20 @@ class Playback(BaseEngine):
             mf = mido.MidiFile(type=plan['type'], ticks_per_beat=plan['tpb'], tracks=tracks)
         except Exception as e:
             raise Violation('construct-raised', f'MidiFile(type={plan["type"]}, tracks=...) raised {e!r}')
+        model_tracks = tracks
+        if plan.get('loaded') and plan['type'] != 2:
+            # the same content arrives as a file image (written by the independent writer) and is loaded, with or
+            # without clip=True (nothing in it needs clipping); the oracle stays with the content of the plan
+            from simkit import simdisk
+            image = simdisk.write_smf(plan['type'], plan['tpb'],
+                                      [[encode_event(e[1:], e[0]) for e in tr] for tr in plan['tracks']])
+            try:
+                mf = mido.MidiFile(file=simdisk.SimDisk().handle_from(image), clip=(plan['loaded'] == 'clip'))
+            except Exception as e:
+                raise Violation('load-raised', f'loading the image of the planned file (clip={plan["loaded"] == "clip"}) '
+                                               f'raised {e!r}')
+            tracks = mf.tracks
+            stats['fault:file_loaded_from_bytes' + ('_clip' if plan['loaded'] == 'clip' else '')] += 1
         snapshot = [[(m.type, m.time) for m in tr] for tr in tracks]
         # ---- type 2 refuses iteration and length
         if plan['type'] == 2:
@@ -283,7 +323,7 @@ class Playback(BaseEngine):
                 raise Violation(f'type2:{what}-not-refused', f'{what} of a type 2 file did not raise')
             log.ev('type2-refused')
             return
-        model = self._model(plan, tracks)
+        model = self._model(plan, model_tracks)
         seq = self._check_iter_length(mf, model, tracks, snapshot, log, sim, 'first')
         self._rest(plan, mf, model, tracks, seq, log, stats, cov)
 
